@@ -184,8 +184,8 @@ impl VTreeManager {
 //%% @ret r
 //%% @rewrite 1 /debug_assert!\(.*?\n        \);\n/ => 
 //%% @rewrite 1 /vec!\[0; tree\.num_vars\(\)\]/ => verif_vec_zeros(tree.num_vars())
-//%% @rewrite 1 /for \(idx, v\) in tree\.inorder_dfs_iter\(\)\.enumerate\(\) \{/ => let mut it__v = tree.inorder_dfs_iter(); let mut idx: usize = 0; let mut nx__v = it__v.next();\n        while nx__v.is_some() { let v = nx__v.unwrap();
-//%% @rewrite 1 /(vtree_lookup\[[^\n]*\] = [^\n]*;\n            \}\n)        \}\n/ => \1        idx += 1; nx__v = it__v.next(); }\n
+//%% @rewrite 1 /for \(idx, (\w+)\) in tree\.inorder_dfs_iter\(\)\.enumerate\(\) \{/ => let mut it__v = tree.inorder_dfs_iter(); let mut idx: usize = 0; let mut nx__v = it__v.next();\n        while nx__v.is_some() { let \1 = nx__v.unwrap();
+//%% @rewrite 1 /\n        \}\n(        (?:VTreeManager \{|let ))/ => \n        idx += 1; nx__v = it__v.next(); }\n\1
 //%% @spec
         requires vsmall(tree), leaves_distinct(tree),
         ensures mgr_ok(r), r.tree == tree,
